@@ -6,6 +6,7 @@ package main
 import (
 	"bufio"
 	"context"
+	"crypto/tls"
 	"encoding/json"
 	"fmt"
 	"net"
@@ -15,6 +16,7 @@ import (
 	"sync"
 	"time"
 
+	"github.com/prometheus/client_golang/prometheus"
 	"github.com/saucelabs/forwarder"
 	"github.com/saucelabs/forwarder/log"
 	"github.com/saucelabs/forwarder/pac"
@@ -35,6 +37,7 @@ type cfgDesc struct {
 	Direct   []string `json:"direct"`             // nil: no --direct-domains
 	Mode     string   `json:"mode"`
 	Rules    []string `json:"rules"`              // --connect-to entries
+	MITM     bool     `json:"mitm,omitempty"`     // --mitm: CONNECT is terminated by the proxy, inner requests are routed
 }
 
 func (p *pacDesc) script() string {
@@ -139,6 +142,10 @@ func newRig(desc cfgDesc, w *world) (*rig, error) {
 	cfg := forwarder.DefaultHTTPProxyConfig()
 	cfg.Address = "127.0.0.1:0"
 	cfg.ProxyLocalhost = forwarder.ProxyLocalhostMode(desc.Mode)
+	if desc.MITM {
+		cfg.MITM = forwarder.DefaultMITMConfig()
+		cfg.PromRegistry = prometheus.NewRegistry()
+	}
 	if desc.Upstream != "" {
 		i := strings.Index(desc.Upstream, "://")
 		cfg.UpstreamProxy = &url.URL{Scheme: desc.Upstream[:i], Host: desc.Upstream[i+3:]}
@@ -236,8 +243,8 @@ type obsJSON struct {
 	Match  []string    `json:"matcher_args,omitempty"`
 }
 
-// request drives one request through the real proxy: kind 0 = plain (absolute-form GET), 1 = CONNECT then an
-// inner origin-form GET through the tunnel.
+// request drives one request through the real proxy: kind 0 = plain http (absolute-form GET), 1 = CONNECT then an
+// inner origin-form GET through the tunnel, 2 = https target in absolute form, 3 = request inside a MITM'd tunnel.
 func (r *rig) request(kind int, scheme, urlhost string) obsJSON {
 	r.w.reset()
 	if r.pac != nil {
@@ -255,7 +262,8 @@ func (r *rig) request(kind int, scheme, urlhost string) obsJSON {
 	defer c.Close()
 	c.SetDeadline(time.Now().Add(15 * time.Second))
 	br := bufio.NewReader(c)
-	if kind == 0 {
+	switch kind {
+	case 0, 2: // absolute-form GET (http or https target)
 		fmt.Fprintf(c, "GET %s://%s/p HTTP/1.1\r\nHost: %s\r\nConnection: close\r\n\r\n", scheme, urlhost, urlhost)
 		res, err := http.ReadResponse(br, nil)
 		if err != nil {
@@ -265,26 +273,36 @@ func (r *rig) request(kind int, scheme, urlhost string) obsJSON {
 			res.Body.Close()
 			o.OK = res.StatusCode/100 == 2
 		}
-	} else {
+	default: // 1: CONNECT + inner plain request through the tunnel; 3: CONNECT, TLS with the MITM'ing proxy, inner request
 		fmt.Fprintf(c, "CONNECT %s HTTP/1.1\r\nHost: %s\r\n\r\n", urlhost, urlhost)
 		res, err := http.ReadResponse(br, &http.Request{Method: http.MethodConnect})
 		if err != nil {
 			o.Err = "read CONNECT response: " + err.Error()
-		} else {
-			o.Status = res.StatusCode
-			if res.StatusCode/100 == 2 {
-				fmt.Fprintf(c, "GET /inner HTTP/1.1\r\nHost: %s\r\nConnection: close\r\n\r\n", urlhost)
-				res2, err := http.ReadResponse(br, nil)
-				if err != nil {
-					o.Err = "read inner response: " + err.Error()
-				} else {
-					o.Inner = res2.StatusCode
-					res2.Body.Close()
-					o.OK = res2.StatusCode/100 == 2
-				}
-			} else {
-				res.Body.Close()
+			break
+		}
+		o.Status = res.StatusCode
+		if res.StatusCode/100 != 2 {
+			res.Body.Close()
+			break
+		}
+		var rw net.Conn = c
+		if kind == 3 {
+			tc := tls.Client(&bufConn{Conn: c, r: br}, &tls.Config{InsecureSkipVerify: true}) //nolint:gosec // scripted client
+			if err := tc.Handshake(); err != nil {
+				o.Err = "tls with mitm proxy: " + err.Error()
+				break
 			}
+			rw = tc
+			br = bufio.NewReader(tc)
+		}
+		fmt.Fprintf(rw, "GET /inner HTTP/1.1\r\nHost: %s\r\nConnection: close\r\n\r\n", urlhost)
+		res2, err := http.ReadResponse(br, nil)
+		if err != nil {
+			o.Err = "read inner response: " + err.Error()
+		} else {
+			o.Inner = res2.StatusCode
+			res2.Body.Close()
+			o.OK = res2.StatusCode/100 == 2
 		}
 	}
 	r.rt.CloseIdleConnections()
